@@ -184,7 +184,7 @@ impl Property for C11 {
 		"C11"
 	}
 	fn rule(&self) -> &'static str {
-		"each case builds one scene with fixed parameters and nothing in flight - static sounds (any rate incl. negative, loop regions, reverse, pan, other sample rates), a track tree with sends, optionally spatial tracks with a fixed listener, all eight built-in effects incl. nested delay feedback at any node - entirely before the first callback, and renders the same number of frames twice from fresh managers with two independent (internal buffer size 1..4096, callback partition) configurations: one-frame callbacks, non-multiples, buffers larger than the whole render. The two outputs must be bit-identical when the scene has no recursive effect and no spatial track, within 1e-6 with recursive effects, within 1e-5 when a spatial track is present. Non-trivial = the configurations differ, at least one callback is not a multiple of its internal buffer, and the output is not silent; distinct = distinct decoded choices."
+		"each case builds one scene with fixed parameters and nothing in flight - static sounds (any rate incl. negative, loop regions, reverse, pan, other sample rates), a track tree with sends, optionally spatial tracks with a fixed listener, all eight built-in effects incl. nested delay feedback at any node - entirely before the first callback, and renders the same number of frames twice from fresh managers with two independent (internal buffer size 1..4096, callback partition) configurations: one-frame callbacks, non-multiples, buffers larger than the whole render. The two outputs must be bit-identical when the scene has no recursive effect and no spatial track, within 1e-6 with recursive effects, within 1e-5 x the gain of the recursive effects present when a spatial track is present. Non-trivial = the configurations differ, at least one callback is not a multiple of its internal buffer, and the output is not silent; distinct = distinct decoded choices."
 	}
 	fn assumptions(&self) -> Vec<String> {
 		vec![
@@ -226,7 +226,21 @@ impl Property for C11 {
 		let tol = if exact {
 			0.0
 		} else if scene.spatial {
-			1e-5
+			// (the ulp noise of a spatial track is amplified by whatever recursive effects follow it:
+			// a +24 dB shelf of quality 10 at Nyquist multiplies it by several hundred)
+			let mut cond = 1.0f32;
+			let mut all: Vec<&crate::scene::fx::FxSpec> = scene.program.config.main_effects.iter().collect();
+			for op in &scene.program.ops {
+				match op {
+					crate::scene::ast::Op::AddTrack(t) => all.extend(t.effects.iter()),
+					crate::scene::ast::Op::AddSend { effects, .. } => all.extend(effects.iter()),
+					_ => {}
+				}
+			}
+			for e in all {
+				cond *= super::c13::conditioning(e, frames, scene.program.config.sample_rate).max(1.0);
+			}
+			1e-5 * cond.min(1e4)
 		} else {
 			1e-6
 		};
